@@ -1,4 +1,5 @@
 import Driver.Util
+import Driver.State
 import GFS.Model.Range
 import GFS.Model.RangeHeader
 import GFS.Spec.RangeSpec
@@ -117,17 +118,23 @@ def handle (toks : List String) : String :=
     | _ => "bad-op\t-"
   | _ => "bad-op\t-"
 
-partial def loop (h : IO.FS.Stream) (out : IO.FS.Stream) : IO Unit := do
+partial def loop (h : IO.FS.Stream) (out : IO.FS.Stream) (st : DState) : IO Unit := do
   let line ← h.getLine
   if line.isEmpty then return ()
   let toks := (line.trimAscii.toString.splitOn " ").filter (· ≠ "")
-  out.putStrLn (handle toks)
-  out.flush
-  loop h out
+  match stepState st toks with
+  | some (st', m, s) =>
+    out.putStrLn (m ++ "\t" ++ s)
+    out.flush
+    loop h out st'
+  | none =>
+    out.putStrLn (handle toks)
+    out.flush
+    loop h out st
 
 end Driver
 
 def main : IO Unit := do
   let stdin ← IO.getStdin
   let stdout ← IO.getStdout
-  Driver.loop stdin stdout
+  Driver.loop stdin stdout {}
